@@ -163,7 +163,7 @@ var templates = map[string]string{
 	"scan": "CUR:kv ( match PAT )? ( count CNT )?", "revscan": "CUR:kv ( match PAT )? ( count CNT )?",
 	"advscan": "CUR:any TYPE ( match PAT )? ( count CNT )?", "advrevscan": "CUR:any TYPE ( match PAT )? ( count CNT )?",
 	"fullscan":  "CUR:any TYPE ( match PAT )? ( count CNT )?",
-	"hidx.from": "TBL where COND ( hget TBL F )?",
+	"hidx.from": "TBL where COND ( limit I CNT )? ( hget $ F )?",
 	"exists":    "K:kv ( K:kv )?", "del": "K:kv ( K:kv )?", "plset": "( K:kv V )+",
 	// registered only as apply-side (internal) handlers: a client has no entry point, the server must say so
 	"mset": "( K:kv V )+", "hmclear": "K:hash ( K:hash )?", "lmclear": "K:list ( K:list )?",
@@ -223,6 +223,7 @@ type Gen struct {
 	forceReps  int      // >0: every ( ... )+ group is repeated exactly that often
 	forceOpt   int      // 1: every ( ... )? group present, -1: absent, 0: random
 	Dict       []string // dictionary for the "dict" mutation kind
+	Delims     []string // operators / delimiters for the "grammar" mutation kind
 	AvoidKinds map[string]bool
 	// BigBudget bounds how many arguments above 16 KiB this generator still
 	// produces (they dominate the WAL / engine / log volume); afterwards the
@@ -313,7 +314,7 @@ func (g *Gen) token(tok string) string {
 	case "TBL":
 		return g.Namespaces[g.R.Intn(len(g.Namespaces))] + ":" + g.Tables[g.R.Intn(len(g.Tables))]
 	case "COND":
-		return g.pick(`"f0"="v"`, `"n0">1`, `"f1"="123456789"`, `"n0"<=100`)
+		return g.pick(`"f0=v"`, `"n0>1"`, `"n0 > 1 and n0 < 100"`, `"n0<=100"`, `"f1=123456789"`, `"n0 >= 1 and n0 <= 5"`)
 	}
 	return tok // literal
 }
@@ -411,7 +412,7 @@ var sepKeys = []string{":", "::", ":::", "ns:", "ns::", ":t:k", "::k", "fz:", "f
 // "tailbad": a multi-element write whose LAST element is invalid while the
 // earlier ones are fine (the shape that exposes partial writes: the earlier
 // elements are already in the write batch when the command fails).
-var mutationKinds = []string{"tailbad", "bintable", "dict", "drop", "dropall", "dup", "swap", "shuffle", "empty", "nul", "ff", "crlf", "big64k", "big70k", "longkey", "longfield",
+var mutationKinds = []string{"tailbad", "bintable", "dict", "grammar", "drop", "dropall", "dup", "swap", "shuffle", "empty", "nul", "ff", "crlf", "big64k", "big70k", "longkey", "longfield",
 	"nons", "notable", "seps", "num", "numslot", "bitoff", "count", "opt", "case", "stale", "extra", "manyargs", "wrongns", "combo"}
 
 func isNumericSlot(k string) bool {
@@ -526,6 +527,19 @@ func (g *Gen) Mutate(c GenCmd, kinds []slot, kind string) GenCmd {
 		}
 		if !done {
 			set(len(args)-1, fill(10241, 'f'))
+		}
+	case "grammar":
+		// structure-aware: an argument that carries a small grammar, re-assembled
+		// from its own operators and delimiters
+		if i := slotPos(isGrammarSlot); i > 0 {
+			vs := GrammarVariants(string(args[i]), g.delims())
+			if len(vs) > 0 {
+				v := vs[r.Intn(len(vs))]
+				if r.Intn(12) == 0 {
+					v = string(fill(20000, 'g')) + v // very long operand
+				}
+				set(i, []byte(v))
+			}
 		}
 	case "dict":
 		// a magic string of the tree's own sources, mostly where the server parses at apply time
@@ -700,7 +714,7 @@ func (g *Gen) Mutate(c GenCmd, kinds []slot, kind string) GenCmd {
 
 // value-level kinds are drawn more often than the key-destroying ones
 var weightedKinds = func() []string {
-	heavy := map[string]int{"tailbad": 4, "dict": 3, "num": 3, "numslot": 4, "bitoff": 2, "count": 3, "big70k": 2, "longfield": 2, "empty": 2, "nul": 2, "ff": 2, "dup": 2, "opt": 2, "extra": 2, "swap": 2, "combo": 2}
+	heavy := map[string]int{"tailbad": 4, "dict": 3, "grammar": 4, "num": 3, "numslot": 4, "bitoff": 2, "count": 3, "big70k": 2, "longfield": 2, "empty": 2, "nul": 2, "ff": 2, "dup": 2, "opt": 2, "extra": 2, "swap": 2, "combo": 2}
 	var out []string
 	for _, k := range mutationKinds {
 		n := heavy[k]
@@ -722,6 +736,11 @@ func (g *Gen) Hostile(name string) (GenCmd, bool) {
 	for tries := 0; (g.AvoidKinds[kind] || (kind == "bintable" && g.R.Intn(4) != 0)) && tries < 50; tries++ {
 		kind = weightedKinds[g.R.Intn(len(weightedKinds))]
 	}
+	if kind == "grammar" && !templateHasGrammar(templates[name]) {
+		for kind == "grammar" || kind == "tailbad" || g.AvoidKinds[kind] {
+			kind = weightedKinds[g.R.Intn(len(weightedKinds))]
+		}
+	}
 	if kind == "tailbad" {
 		if !strings.Contains(templates[name], ")+") {
 			for kind == "tailbad" || g.AvoidKinds[kind] {
@@ -737,6 +756,22 @@ func (g *Gen) Hostile(name string) (GenCmd, bool) {
 		return GenCmd{}, false
 	}
 	return g.Mutate(v, kinds, kind), true
+}
+
+func templateHasGrammar(t string) bool {
+	for _, tok := range strings.Fields(t) {
+		if isGrammarSlot(tok) {
+			return true
+		}
+	}
+	return false
+}
+
+func (g *Gen) delims() []string {
+	if len(g.Delims) > 0 {
+		return g.Delims
+	}
+	return baseDelims
 }
 
 func bytesIndexOrLen(b []byte, c byte) int {
@@ -805,6 +840,35 @@ func (g *Gen) PrePhase(names []RegisteredCmd, strict []string, avoid func(string
 				extra = v.Args[len(v.Args)-1]
 			}
 			add(GenCmd{Name: rc.Name, Kind: "argc-extra", Args: append(cp(v.Args), extra)})
+			// (3) grammar: every structure-aware variant once per grammar-bearing position
+			{
+				// (on the instance without and on the one with the optional groups:
+				// an option can make an earlier layer refuse the command)
+				g.forceOpt = mode.opt
+				gv, gk, _ := g.Valid(rc.Name)
+				g.forceOpt = 0
+				doneSlot := map[string]bool{}
+				for i := 1; i < len(gv.Args) && i < len(gk); i++ {
+					if !isGrammarSlot(gk[i].kind) || doneSlot[gk[i].kind] {
+						continue
+					}
+					doneSlot[gk[i].kind] = true
+					vs := GrammarVariants(string(gv.Args[i]), g.delims())
+					if gk[i].kind != "COND" && len(vs) > 45 {
+						// the delimiter-only tail is long: keep the structural head and a spread of the rest
+						head, rest := vs[:30], vs[30:]
+						for j := 0; j < len(rest); j += maxInt(1, len(rest)/15) {
+							head = append(head, rest[j])
+						}
+						vs = head
+					}
+					for _, x := range vs {
+						a := cp(gv.Args)
+						a[i] = []byte(x)
+						add(GenCmd{Name: rc.Name, Kind: "grammar-sys", Args: a})
+					}
+				}
+			}
 			if !isWriteKind(rc.Kinds) {
 				continue
 			}
